@@ -384,7 +384,7 @@ def _random_history(ctx, spec, rng, names, kind, reg, dynamic):
               reordering=dynamic)
     menu = dict(build=5, apply=14, apply_quant=2, ite=8, drop=5, gc=3,
                 swap=3 if kind == 'bdd' else 0, sift=1, reorder_to=1,
-                dup=1, clone=2 if kind == 'bdd' else 0, tight=3,
+                dup=1, clone=2 if kind == 'bdd' else 0, tight=4,
                 **{'not': 2})
     if kind == 'bdd' and not dynamic and spec['sub'] % 4 == 2:
         # connectives in a manager whose set of variables changes: the
